@@ -55,3 +55,14 @@ def run(pid, tier, seed, args):
         tier, res["scenarios"], res["total"], res["steps"], res["evals"], res["nontrivial"], len(res["outcomes"]),
         time.time() - t0, len(viols), n_unknown, " CAPPED: " + res["capped"] if res["capped"] else ""))
     return 1 if n_unknown else 0
+
+
+def replay(path):
+    import json
+    from .. import runner
+    with open(path) as f:
+        rp = json.load(f)
+    if isinstance(rp.get("history"), dict):
+        return scen.replay_scenario(path, timed.TimedMon, "C12")
+    import sys
+    return runner.generic_replay(sys.modules[__name__], "C12", path)
